@@ -234,7 +234,7 @@ def generate():
     lines = ['(* GENERATED on every run by harness/translate_tables.py from /repo -- do not edit *)',
              'From Coq Require Import NArith List String. Import ListNotations.',
              'From Y Require Import Prelude Re Resolve.',
-             'Open Scope N_scope. Open Scope string_scope.']
+             'Local Open Scope N_scope. Local Open Scope string_scope.']
     pats = {}
     for name, tbl in live_tables().items():
         table_text(tbl, name, pats, lines)
